@@ -43,7 +43,7 @@ func (c20gDriver) Gen(r *Rand, tier string) []json.RawMessage {
 }
 
 type gqlPage struct {
-	Nodes    []map[string]interface{} `json:"nodes"`
+	Nodes    []map[string]interface{}  `json:"nodes"`
 	Edges    []struct{ Cursor string } `json:"edges"`
 	PageInfo struct {
 		HasNextPage     bool   `json:"hasNextPage"`
@@ -88,7 +88,7 @@ func (c20gDriver) Run(raw json.RawMessage) Case {
 				au := authors[(c+1)%len(authors)]
 				_, _, _ = bug.AddComment(x, au, int64(1600000100+c), fmt.Sprintf("comment %d", c), nil, nil)
 				if c%2 == 0 {
-					_, _ = bug.ForceChangeLabels(x, au, int64(1600000200+c), []string{fmt.Sprintf("label-%d", c)}, nil, nil)
+					_, _ = bug.ForceChangeLabels(x, au, int64(1600000200+c), []string{fmt.Sprintf("label-%d", c), fmt.Sprintf("Label-%d", c), "bug", "Bug", "BUG"}, nil, nil)
 				}
 			}
 		}
@@ -227,29 +227,31 @@ func (c20gDriver) Run(raw json.RawMessage) Case {
 			}
 			return
 		}
-		fp, ff, ft, e1 := walk(true)
-		bp, bf, bt, e2 := walk(false)
-		if e1 != "" || e2 != "" {
-			return Case{Skip: "walk " + f.name + ": " + e1 + e2}
-		}
-		pagesT := func(ps [][]int) string {
-			var xs []string
-			for _, p := range ps {
-				xs = append(xs, coqNats(p))
+		for round := 0; round < 3; round++ {
+			fp, ff, ft, e1 := walk(true)
+			bp, bf, bt, e2 := walk(false)
+			if e1 != "" || e2 != "" {
+				return Case{Skip: "walk " + f.name + ": " + e1 + e2}
 			}
-			return coqList(xs)
-		}
-		boolsT := func(bs []bool) string {
-			var xs []string
-			for _, b := range bs {
-				xs = append(xs, coqBool(b))
+			pagesT := func(ps [][]int) string {
+				var xs []string
+				for _, p := range ps {
+					xs = append(xs, coqNats(p))
+				}
+				return coqList(xs)
 			}
-			return coqList(xs)
-		}
-		terms = append(terms, fmt.Sprintf("mkwalk %d %d %d %s %s %s %s %s %s", n, in.K, full.TotalCount, pagesT(fp), boolsT(ff), coqNats(ft), pagesT(bp), boolsT(bf), coqNats(bt)))
-		obs[f.name] = map[string]interface{}{"n": n, "forward": fp, "backward": bp, "fwd_more": ff, "bwd_more": bf}
-		if n > in.K {
-			tags = append(tags, "multi-page:"+f.name)
+			boolsT := func(bs []bool) string {
+				var xs []string
+				for _, b := range bs {
+					xs = append(xs, coqBool(b))
+				}
+				return coqList(xs)
+			}
+			terms = append(terms, fmt.Sprintf("mkwalk %d %d %d %s %s %s %s %s %s", n, in.K, full.TotalCount, pagesT(fp), boolsT(ff), coqNats(ft), pagesT(bp), boolsT(bf), coqNats(bt)))
+			obs[fmt.Sprintf("%s#%d", f.name, round)] = map[string]interface{}{"n": n, "forward": fp, "backward": bp, "fwd_more": ff, "bwd_more": bf}
+			if n > in.K && round == 0 {
+				tags = append(tags, "multi-page:"+f.name)
+			}
 		}
 	}
 	sort.Strings(tags)
